@@ -254,6 +254,31 @@ def run(ctx):
                 ctx.violation(dict(kind='damaged-input', source='synthetic %s battle' % v, where='pickled player record', corruption='a list and a dict that contain themselves', problem=bad, file=keep,
                                    wall_s=r['wall'], limit_s=25, how='python tools/c15_worker.py <file>  (ReplayParser(file, strict=False).get_info() in a fresh interpreter)'))
                 break
+        # a run of tiny slice packets whose bounds have ALL BITS SET, each one bit wider than the one before (what a list that doubled on every
+        # packet would ask for): a bound past the end of the list is clamped (or the packet fails) - forty such packets stay forty small steps
+        for v in [x for x in (wv[-1], '13_2_0', '12_6_0') if x in wv][:2]:
+            bb, vs = battle.build_wows(v, random.Random(8), join=True)
+            if not hasattr(bb, 'ribbon_slice'): continue
+            p = os.path.join(tmp, 'slices-%s.wowsreplay' % v)
+            base_p = os.path.join(tmp, 'slices-base-%s.wowsreplay' % v); battle.write_replay(base_p, 'wowsreplay', {'clientVersionFromXml': vs}, bb.stream())
+            base = run_worker(base_p, 120)
+            bb.pkt('NestedProperty', bb.ribbon_slice(2, 3, 3))                      # 3 records -> 4 (bounds 3:3 of 2 bits: plain append)
+            for k in range(40):
+                w_ = 3 + k
+                if w_ > 60: break
+                bb.pkt('NestedProperty', bb.ribbon_slice(w_, 2 ** w_ - 1, 2 ** w_ - 1))
+            battle.write_replay(p, 'wowsreplay', {'clientVersionFromXml': vs}, bb.stream())
+            r = run_worker(p, max(10.0, base['wall'] * 10 + 3))
+            ctx.case(('slice-bounds-all-ones', v)); ctx.count('where:slice-bounds-all-ones')
+            bad = None
+            if r['outcome'].startswith(('HANG', 'CRASH')) or r['outcome'] in ('exception MemoryError', 'exception RecursionError'): bad = r['outcome']
+            elif r['maxrss_kb'] > max(base['maxrss_kb'] * 3, 150000): bad = 'peak resident size %d kB (without the run of slice packets: %d kB)' % (r['maxrss_kb'], base['maxrss_kb'])
+            elif not r['outcome'].startswith('result'): bad = 'container intact but lenient mode raised: ' + r['outcome']
+            if bad:
+                keep = os.path.join(common.VERIF, 'evidence', 'replays', 'C15-damaged-%d.wowsreplay' % (len(ctx.violations) + 1)); shutil.copy(p, keep)
+                ctx.violation(dict(kind='damaged-input', source='synthetic %s battle' % v, where='bounds of 41 nested slice packets into Avatar.privateVehicleState.ribbons', corruption='both bounds all ones, 2, 3, 4, ... 42 bits wide',
+                                   problem=bad, file=keep, wall_s=r['wall'], how='python tools/c15_worker.py <file>  (ReplayParser(file, strict=False).get_info() in a fresh interpreter)'))
+                break
         # the value bytes of EVERY property update and method call replaced by 0xff bytes (count / length escapes with nothing behind them): each packet
         # fails or decodes to something tiny; a few kB of input stay a matter of milliseconds and megabytes
         for src in (syn, syn2, syn3, syn4):
